@@ -150,7 +150,8 @@ def echo_value(v, memo):
         memo[id(v)] = len(memo)
         return {
             "$obj": memo[id(v)],
-            "$cls": type(v).__xpmtype__.basetype.__qualname__,
+            "$id": id(v),
+            "$cls": next(c.__qualname__ for c in type(v).__mro__ if not c.__qualname__.endswith((".XPMValue", ".XPMConfig")) and c.__name__ not in ("TypeConfig", "XPMValue")),
             "fields": {k: echo_value(x, memo) for k, x in sorted(vars(v).items()) if not k.startswith("_")},
         }
     if isinstance(v, list):
@@ -191,9 +192,9 @@ class TaskBase(Instrumented, Task):
             _append(log, f"start {me}")
         if os.environ.get("XV_ECHO"):
             memo = {}
-            data = {"params": echo_value(self, memo), "tags": getattr(self, "__tags__", None), "calls": [list(c[:3]) for c in (calllog.LOG or [])]}
+            data = {"params": echo_value(self, memo), "tags": getattr(self, "__tags__", None), "calls": [list(c) for c in (calllog.LOG or [])], "self": id(self)}
             Path("echo.json").write_text(json.dumps(data))
-        if self.hold:
+        if 0 < self.hold < 60000:
             time.sleep(self.hold / 1000.0)
         go = os.environ.get("XV_GO")
         if go:
